@@ -42,4 +42,12 @@ type Convergen interface {
 	To32(*Src) *Dst32
 	To33(*Src) *Dst33
 	To34(*Src) *Dst34
+	To35(*Src) *Dst35
+	To36(*Src) *Dst36
+	To37(*Src) *Dst37
+	To38(*Src) *Dst38
+	To39(*Src) *Dst39
+	To40(*Src) *Dst40
+	To41(*Src) *Dst41
+	To42(*Src) *Dst42
 }
